@@ -4,7 +4,7 @@
 From Coq Require Import ZArith List QArith Qcanon Bool Lia.
 From SG Require Import Base.QcUtil Base.PolyInt Model.Gram Model.GramSolve
   Proofs.GramHat Proofs.GramEntries Proofs.GramPD Proofs.GramNorm
-  Proofs.KronSOS Proofs.StripeSOS Proofs.GramKron Proofs.GramSolveP Proofs.GramGauss Proofs.DECacheP Proofs.DEPaths Proofs.DEUniform.
+  Proofs.KronSOS Proofs.StripeSOS Proofs.GramKron Proofs.GramSolveP Proofs.GramGauss Proofs.GramCombine Proofs.DECacheP Proofs.DEPaths Proofs.DEUniform.
 Import ListNotations.
 Open Scope Qc_scope.
 
@@ -303,3 +303,46 @@ Example C16_nonvacuous_uniform_pd :
   option_map (fun r : list Qc * list Qc * Qc => (map (fun x : Qc => this x) (fst (fst r)), map (fun x : Qc => this x) (snd (fst r)), this (snd r)))
     (surpluses_uniform [1]%Z 0 false [[q 1 2]; [q 1 4]] [] false) = Some ([9 # 4], [1 # 1], 9 # 4)%Q.
 Proof. split; [apply Qc_is_canon; vm_compute; reflexivity | vm_compute; reflexivity]. Qed.
+
+(* ---- phase 3: the combined density.  The accumulation coded in StandardCombi.__call__ / SpatiallyAdaptivBase.__call__
+   (zeros, then += interpolant * coefficient per component grid) is the coefficient-weighted sum of the component interpolants
+   (Model/GramSolve.v combine_*, entry subs 14/15), for EVERY scheme; for every scheme with the C01 invariant the coefficients sum
+   to one, so the combined density is an affine combination of the component densities.  Non-negativity is NOT claimed
+   (C16_combined_density_can_be_negative). *)
+Theorem C16_combined_density_is_weighted_sum : forall ugrids ngrids x,
+  combine_loop_uniform ugrids x = combine_uniform ugrids x /\ combine_loop_nonuniform ngrids x = combine_nonuniform ngrids x.
+Proof.
+  intros ugrids ngrids x. split;
+    [exact (combine_loop_uniform_is_weighted_sum ugrids x) | exact (combine_loop_nonuniform_is_weighted_sum ngrids x)].
+Qed.
+Theorem C16_combined_density_affine : forall s surpluses x v, SchemeInv.Inv s ->
+  sumQ (map (fun g => snd (fst g)) (scheme_grids s surpluses)) = 1 /\
+  ((forall g, In g (scheme_grids s surpluses) -> interp_uniform (fst (fst g)) (snd g) x = v) ->
+   combine_uniform (scheme_grids s surpluses) x = v) /\
+  combine_uniform (scheme_grids s surpluses) x - v
+  = sumQ (map (fun g => snd (fst g) * (interp_uniform (fst (fst g)) (snd g) x - v)) (scheme_grids s surpluses)).
+Proof.
+  intros s surpluses x v H. split; [|split].
+  - exact (scheme_coefficients_sum_to_one s surpluses H).
+  - exact (combined_density_affine s surpluses x v H).
+  - exact (combined_density_deviation s surpluses x v H).
+Qed.
+Theorem C16_combined_density_can_be_negative_refuted : exists grids x,
+  Forall (fun g => 0 <= interp_uniform (fst (fst g)) (snd g) x) grids /\
+  sumQ (map (fun g => snd (fst g)) grids) = 1 /\ combine_uniform grids x < 0.
+Proof.
+  destruct combined_density_can_be_negative as [A [B C]].
+  eexists _, _. split; [exact A|]. split; [exact C|]. rewrite B. unfold Qclt. vm_compute. reflexivity.
+Qed.
+Print Assumptions C16_combined_density_is_weighted_sum.
+Print Assumptions C16_combined_density_affine.
+Print Assumptions C16_combined_density_can_be_negative_refuted.
+
+(* non-vacuity: the freshly initialised two-dimensional scheme lmin = 1, lmax = 2 has the invariant; its three component grids carry
+   the coefficients +1, +1, -1 *)
+Example C16_nonvacuous_combined_density : exists s,
+  CombiScheme.init_scheme 2 2 1 = Some s /\ SchemeInv.Inv s /\
+  map (fun g => (fst (fst g), this (snd (fst g)))) (scheme_grids s (fun _ => [])) = [([1; 2]%Z, 1%Q); ([1; 1]%Z, (-1)%Q); ([2; 1]%Z, 1%Q)].
+Proof.
+  eexists. split; [reflexivity|]. split; [apply (SchemeInv.init_inv 1 2 1); reflexivity | vm_compute; reflexivity].
+Qed.
